@@ -170,13 +170,21 @@ def pt2(ctx, R):
     n_sites = 0
     TAKE_APART = ("split", "rsplit", "strip", "lstrip", "rstrip", "partition", "rpartition", "slice", "splitlines", "find", "index", "rfind")
     ALTER = ("strip", "lstrip", "rstrip", "lower", "upper", "replace", "title", "casefold", "translate", "capitalize", "swapcase", "expandtabs", "slice")
+    seen_calls = set()
     for fi, c, recv, m in K.parses:
+        if (id(c), m) in seen_calls:
+            continue
+        seen_calls.add((id(c), m))
         k = K.kind(recv)
         if k == PATH and m in TAKE_APART:
             n_sites += 1
             R.violation("%s::%s" % (fi.qual, unparse(c)[:50]), fi.where(c), "an object path is taken apart with %s (`%s`): quotes and slashes inside names are "
                         "not separators and doubled quotes are not undone; names must come from ObjectPath.from_string" % (
                             "a positional slice" if m == "slice" else "str.%s" % m, unparse(c)[:60]))
+        elif k in (PATH, NAME) and m == "normalize":
+            n_sites += 1
+            R.violation("%s::%s" % (fi.qual, unparse(c)[:50]), fi.where(c), "an object %s is rewritten with unicodedata.normalize (`%s`): names are arbitrary strings, "
+                        "two objects whose names differ only in Unicode normal form would become one" % ("path" if k == PATH else "name", unparse(c)[:60]))
         elif k == NAME and m in ALTER:
             n_sites += 1
             R.violation("%s::%s" % (fi.qual, unparse(c)[:50]), fi.where(c), "an object name is altered with %s (`%s`): names are arbitrary strings and must be "
@@ -224,10 +232,23 @@ def pt3(ctx, R):
     S, Q = alpha
     pc = prog.func("common._path_components")
     region = module_region(prog, pc)
-    consts = {n.value for f in region for n in ast.walk(f.node) if isinstance(n, ast.Constant) and isinstance(n.value, str) and len(n.value) == 1
-              and not _in_raise(f, n)}
-    R.check(consts == {S, Q}, "common._path_components::alphabet", pc.where(), "scanner compares with %r and %r only" % (S, Q),
-            "scanner alphabet %s differs from the encoder's separator %r and quote %r" % (sorted(consts), S, Q))
+    def char_const(f, n):
+        """a one-character string: a literal, or a name of a module constant that is one"""
+        if isinstance(n, ast.Constant) and isinstance(n.value, str) and len(n.value) == 1:
+            return n.value
+        if isinstance(n, ast.Name) and isinstance(n.ctx, ast.Load):
+            r = prog.resolve_name(f.module, n.id)
+            if r and r[0] == "const":
+                v = prog.try_fold(r[1], r[2], default=None)
+                if isinstance(v, str) and len(v) == 1:
+                    return v
+        return None
+    consts = {char_const(f, n) for f in region for n in ast.walk(f.node) if char_const(f, n) is not None and not _in_raise(f, n)}
+    if not consts:
+        R.unrecognised("common._path_components::alphabet", pc.where(), "the scanner compares with no one-character constant: its alphabet was not recognised")
+    else:
+        R.check(consts == {S, Q}, "common._path_components::alphabet", pc.where(), "scanner compares with %r and %r only" % (S, Q),
+                "scanner alphabet %s differs from the encoder's separator %r and quote %r" % (sorted(consts), S, Q))
     splitting = [(f, n) for f in region for n in ast.walk(f.node) if isinstance(n, ast.Call) and isinstance(n.func, ast.Attribute)
                  and n.func.attr in ("split", "rsplit", "partition", "rpartition", "findall", "finditer", "match", "fullmatch", "search")]
     pairs = [(f, n) for f in region for n in ast.walk(f.node) if isinstance(n, ast.Call) and (call_name(n) or "").split(".")[-1] in ("zip_longest", "zip", "pairwise")]
@@ -247,11 +268,15 @@ def pt3(ctx, R):
         sy = Sym(prog, f, None, inline=False)
         for st in walk_body(f.node):
             lit = None
-            if isinstance(st, ast.AugAssign) and isinstance(st.op, ast.Add) and isinstance(st.value, ast.Constant) and isinstance(st.value.value, str):
-                lit = st.value.value
+            def lit_of(e):
+                if isinstance(e, ast.Constant) and isinstance(e.value, str):
+                    return e.value
+                return char_const(f, e)
+            if isinstance(st, ast.AugAssign) and isinstance(st.op, ast.Add) and lit_of(st.value) is not None:
+                lit = lit_of(st.value)
             elif isinstance(st, ast.Expr) and isinstance(st.value, ast.Call) and isinstance(st.value.func, ast.Attribute) and st.value.func.attr in ("append", "extend", "write") \
-                    and st.value.args and isinstance(st.value.args[0], ast.Constant) and isinstance(st.value.args[0].value, str):
-                lit = st.value.args[0].value
+                    and st.value.args and lit_of(st.value.args[0]) is not None:
+                lit = lit_of(st.value.args[0])
             if lit is not None and Q in lit:
                 _env, guards = sy.env_at(st)
                 emit.append((f, st, lit, guards))
@@ -279,10 +304,16 @@ def pt3(ctx, R):
         def orc(c):
             if c == ("cmp", "==", cur, QC):
                 return vcur
+            if c == ("cmp", "!=", cur, QC):
+                return not vcur
             if nxt is not None and c == ("cmp", "==", nxt, QC):
                 return vnxt
+            if nxt is not None and c == ("cmp", "!=", nxt, QC):
+                return not vnxt
             return None
-        vals = [eval_cond(g, orc) for g in guards]
+        # only the conditions that compare something with the quote say when the statement runs for a given (current, next) pair;
+        # the others (separator checks, end of input) are satisfiable either way
+        vals = [eval_cond(g, orc) for g in guards if find(g, ("cmp", W(), W(), QC))]
         if any(v is False for v in vals):
             return False
         return True if all(v is True for v in vals) else None
@@ -298,14 +329,19 @@ def pt3(ctx, R):
         both = runs(guards, cur, nxt, True, True)
         single = runs(guards, cur, nxt, True, False)
         other = runs(guards, cur, nxt, False, True)
+        if None in (single, other):
+            R.unrecognised("common._path_components::doubled quote", f.where(st), "the conditions under which the quote is emitted were not decided (%s)" % (
+                "; ".join(show(g) for g in guards)[:160]))
+            continue
         R.check(both is not False and single is False and other is False, "common._path_components::doubled quote", f.where(st),
                 "emitted exactly when current and next character are quotes",
                 "the quote is emitted under the wrong condition (runs for quote+quote: %s, quote+other: %s, other+quote: %s)" % (both, single, other))
         R.check(lit == Q, key, f.where(st), "appends one quote character", "a doubled quote does not decode to exactly one quote character (emits %r)" % lit)
         # the second quote is consumed in the same block
         block = _enclosing_block(f, st)
-        consumes = [c for s2 in block for c in ast.walk(s2) if isinstance(c, ast.Call) and call_name(c) == "next"]
-        any_next = any(isinstance(c, ast.Call) and call_name(c) == "next" for c in ast.walk(f.node))
+        is_next = lambda c: isinstance(c, ast.Call) and (call_name(c) == "next" or (isinstance(c.func, ast.Attribute) and c.func.attr == "__next__"))
+        consumes = [c for s2 in block for c in ast.walk(s2) if is_next(c)]
+        any_next = any(is_next(c) for c in ast.walk(f.node))
         if not consumes and not any_next:
             # a scanner that does not pull characters with next() at all (e.g. a state machine over a for loop): how it skips the
             # second quote is not modelled
@@ -324,6 +360,9 @@ def pt3(ctx, R):
         both = runs(guards, cur, nxt, True, True) if nxt is not None else True
         single = runs(guards, cur, nxt, True, False)
         plain = runs(guards, cur, nxt, False, False)
+        if both is None or plain is None:
+            R.unrecognised(key, f.where(st), "the conditions under which a component is ended were not decided (%s)" % "; ".join(show(g) for g in guards)[:160])
+            continue
         R.check(both is False and single is not False and plain is False, key, f.where(st), "a single quote ends the component and yields it",
                 "the component is ended under the wrong condition (runs for quote+quote: %s, quote+other: %s, other: %s): the end-of-component test must "
                 "not fire on the first quote of a doubled quote" % (both, single, plain))
